@@ -20,6 +20,7 @@ RULE = (
     "Range cases: expressions drawn from the documented grammar (numbers and inclusive ranges, overlaps, reversed, "
     "repeated/bare outer keys, multiple spaces, list-of-strings form) evaluated by unravel/unravel_2d and the pydantic "
     "types Ranges/Ranges2D/AutoInt against a reference evaluator; malformed expressions must raise. "
+    "Each case runs under a CPU budget in a worker with capped address space (a range expression must not expand into billions). "
     "Non-trivial: URI with IPv6 host or >=2 parameters; range expression with >=2 items of which one is a range. "
     "Distinct by input string."
 )
